@@ -96,9 +96,20 @@ func (self *Node) MarshalJSON() ([]byte, error) {
 		return bytesNull, nil
 	}
 
-	// fast path for raw node
+	// fast path for raw node: the raw text may be replaced concurrently by parseRaw,
+	// it must be read under the read lock (as Raw and encodeRaw do)
 	if self.isRaw() {
-		return rt.Str2Mem(self.toString()), nil
+		lock := self.rlock()
+		if self.isRaw() {
+			s := self.toString()
+			if lock {
+				self.runlock()
+			}
+			return rt.Str2Mem(s), nil
+		}
+		if lock {
+			self.runlock()
+		}
 	}
 
 	buf := newBuffer()
